@@ -81,6 +81,10 @@ Theorem C16_left_projector_fixes (x : tt R) (t : nat -> R) i : linked 1 x -> For
   sum_idx (shape x) (fun j => rmul (kernelL x i j) (sum_n (endrank 1 x) (fun q => rmul (chainM (slices x j) 0%nat q) (t q))))
   = sum_n (endrank 1 x) (fun p => rmul (chainM (slices x i) 0%nat p) (t p)).
 Proof. exact (kernelL_fixes x t i). Qed.
+Theorem C16_left_projector_nested (pre mid : tt R) i m q : linked 1 pre -> Forall left_orth pre -> length i = length pre ->
+  sum_idx (shape pre) (fun j => rmul (kernelL pre i j) (chainM (slices (pre ++ mid) (j ++ m)) 0%nat q))
+  = chainM (slices (pre ++ mid) (i ++ m)) 0%nat q.
+Proof. exact (kernelL_nested pre mid i m q). Qed.
 End Kernel.
 
 Print Assumptions C16_proj_fixes.
@@ -92,3 +96,4 @@ Print Assumptions C16_proj_residual_orthogonal.
 Print Assumptions C16_left_projector_hermitian.
 Print Assumptions C16_left_projector_idempotent.
 Print Assumptions C16_left_projector_fixes.
+Print Assumptions C16_left_projector_nested.
